@@ -199,13 +199,44 @@ fn minterm_inputs(count: usize, rng: &mut Rng) -> Vec<Input> {
 }
 
 fn one_case(inp: &Input, qrng: &mut Rng, out: &mut dyn Write) {
+    one_case_edit(inp, None, qrng, out)
+}
+
+/// `edit`: a unit clause applied through the incremental edit API before saving ("every model
+/// reached by the edits of C11"); the source truth table is filtered accordingly
+fn one_case_edit(inp: &Input, edit: Option<i32>, qrng: &mut Rng, out: &mut dyn Write) {
     let mut s = String::new();
+    let mut inp = inp.clone();
+    if let Some(l) = edit {
+        inp.id = format!("{}-edit{}", inp.id, l);
+        inp.desc = format!("{} | then unit clause [{}] added incrementally", inp.desc, l);
+        if let Some(ms) = inp.models.as_mut() {
+            ms.retain(|m| {
+                let bit = (m >> (l.unsigned_abs() - 1)) & 1 == 1;
+                if l > 0 { bit } else { !bit }
+            });
+            if ms.is_empty() {
+                return;
+            }
+        }
+        // the loader correspondence of the ORIGINAL file does not apply to the edited vector
+        inp.format = if inp.format == "c2d" { "c2d-edited" } else { "d4-edited" };
+    }
+    let inp = &inp;
     writeln!(s, "case {} C10", inp.id).unwrap();
     writeln!(s, "info {}", inp.desc).unwrap();
     writeln!(s, "n {}", inp.n).unwrap();
     write_models(&mut s, inp);
     s.push_str(&file_block(inp.format, &inp.lines));
-    match load(&inp.lines, Some(inp.n)) {
+    let loaded = load(&inp.lines, Some(inp.n)).and_then(|mut d| match edit {
+        None => Ok(d),
+        Some(l) => guarded(move || {
+            use ddnnife::parser::intermediate_representation::ClauseApplication;
+            d.prepare_and_apply_incremental_edit(vec![(vec![l], ClauseApplication::Add)]);
+            d
+        }),
+    });
+    match loaded {
         Err(e) => writeln!(s, "impl panic load {}", e).unwrap(),
         Ok(mut d) => {
             s.push_str(&dump_circuit(&d));
@@ -275,5 +306,11 @@ pub fn run(_kind: &str, ctx: &Ctx, out: &mut dyn Write) {
         };
         k += 1;
         one_case(&inp, &mut qrng, out);
+        // models reached by a unit-clause edit (C11), for a sample of the inputs
+        if k % 4 == 0 && inp.n >= 1 {
+            let v = 1 + rng.below(inp.n as u64) as i32;
+            let l = if rng.coin() { v } else { -v };
+            one_case_edit(&inp, Some(l), &mut qrng, out);
+        }
     }
 }
